@@ -726,7 +726,7 @@ func (s *r3State) apiPath(p *core.Path, isSource func(*types.Var) bool) {
 		seenSrc[src] = true
 		if w, ok := overwritten[src.Field]; ok && w > src.Idx {
 			construct := enclosingName(c, src.Ev) + "/remembered(" + core.FieldName(src.Field) + ")"
-			s.note("R3d", construct, src.Ev.Pos, !sunk[src],
+			s.note("R3d", construct, src.Ev.Pos, !sunk[src] && !fl.superseded[src],
 				"the exit channel remembered in "+core.FieldName(src.Field)+" is read and the field is then overwritten, but on this path the value read is neither handed to a start nor stored back (nor shown nil): a later routine no longer waits for the instance it stood for", p)
 		}
 	}
